@@ -22,7 +22,7 @@ TECHNIQUE = ('invariant at a hook after every operation of a history: deep-copie
 RULE = ('cases = histories of public operations on Signal/AccSignal objects; the hook runs after every operation. Exhaustive '
         'part: abstract state W = set of cache groups {fa, smooth, resp, vel/disp, pga, pgv, pgd} read since the last change '
         '(60 reachable states for AccSignal, 3 for Signal); for every W and every operation m of the mutator/setting alphabet '
-        '(47 AccSignal / 24 Signal variants) the history reads(W);m is run, and for (W,m1,m2) all pairs on a tier-dependent set of '
+        '(84 AccSignal / 36 Signal variants incl. read-like calls of the analysis functions that take the object) the history reads(W);m is run, and for (W,m1,m2) all pairs on a tier-dependent set of '
         'W (quick: empty and all-warm; thorough: every W). Random part: histories of 10..60 operations over mutators, settings and '
         'reads on records of 32..300 samples. distinct = digest(class, record, operation sequence); non-trivial = history '
         'contains at least one mutator or setting change.')
@@ -134,6 +134,9 @@ def op_list(cls_name, rng, n):
         ('gen_smooth_fa_spectrum', {'smooth_fa_freqs': f1 * 1.1}),
         ('generate_smooth_fa_spectrum', {}),
     ]
+    # analysis functions that take the object: read-like operations (they must not change any observable)
+    for fn in CALLS_SIG if cls_name == 'Signal' else CALLS_SIG + CALLS_ACC:
+        ops.append(('call:' + fn, {}))
     if cls_name == 'AccSignal':
         ta, tb = round(0.2 * t_end, 2), round(0.7 * t_end, 2)
         ops += [
@@ -160,11 +163,72 @@ def op_list(cls_name, rng, n):
             ('generate_response_spectrum', {}),
             ('generate_displacement_and_velocity_series', {}),
             ('generate_fa_spectrum', {}),
+            ('set:response_times(same object, edited, re-assigned)', {'factor': 1.25}),
+            ('set:response_times(own array assigned, edited, re-assigned)', {'rt': np.array([0.12, 0.5, 1.4])}),
         ]
     return ops
 
 
 MUTATING = lambda name: not (name.startswith('read:'))
+CALLS_SIG = ['im.max_fa_period', 'fns.generate_fa_spectrum', 'fns.calc_fa_spectrum', 'fns.get_sig_freq_range', 'fns.fas2values(own spectrum)',
+             'fns.fas2signal(own spectrum)', 'fns.get_section_average', 'fns.calc_smooth_fa_spectrum_w_custom_matrix',
+             'pc.get_peak_indices', 'pc.get_zero_crossings_indices', 'pc.get_switched_peak_indices', 'im.calc_bandwidth_freqs']
+CALLS_ACC = ['im.calc_arias_intensity', 'im.calc_cav', 'im.calc_isv', 'im.calc_integral_of_abs_velocity',
+             'im.calc_cumulative_abs_displacement', 'im.calc_integral_of_abs_acceleration', 'im.calc_unit_kinetic_energy',
+             'im.calc_sig_dur', 'im.calc_brac_dur', 'im.calc_max_velocity_period', 'im.max_acceleration_period', 'im.calc_asi',
+             'sdof.calc_resp_uke_spectrum', 'sdof.calc_input_energy_spectrum', 'surface.calc_surface_energy',
+             'surface.calc_cum_abs_surface_energy', 'stockwell.get_max_stockwell_freq', 'fns.interp_to_approx_dt',
+             'fns.resample_to_approx_dt', 'multiple.combine_at_angle', 'multiple.compute_rotated', 'method.generate_cumulative_stats',
+             'method.get_section_average']
+
+
+def call_analysis(eqsig, obj, fn):
+    im, sdof = eqsig.im, eqsig.sdof
+    pc = eqsig.fns.peaks_and_crossings
+    if fn == 'im.calc_brac_dur':
+        return im.calc_brac_dur(obj, 0.3 * float(np.max(np.abs(obj.values))))
+    if fn.startswith('im.'):
+        return getattr(im, fn[3:])(obj)
+    if fn.startswith('pc.'):
+        return getattr(pc, fn[3:])(obj)
+    if fn.startswith('sdof.'):
+        return getattr(sdof, fn[5:])(obj)
+    if fn == 'surface.calc_surface_energy':
+        return eqsig.surface.calc_surface_energy(obj, np.array([0.013, 0.03]), stt=0.02, trim=True, start=True)
+    if fn == 'surface.calc_cum_abs_surface_energy':
+        return eqsig.surface.calc_cum_abs_surface_energy(obj, np.array([0.02]))
+    if fn == 'stockwell.get_max_stockwell_freq':
+        if hasattr(obj, 'swtf'):
+            del obj.swtf          # the helper memoises the transform on the object: not one of the observables
+        return eqsig.stockwell.get_max_stockwell_freq(obj)
+    if fn == 'fns.generate_fa_spectrum':
+        return eqsig.generate_fa_spectrum(obj)
+    if fn == 'fns.calc_fa_spectrum':
+        return eqsig.calc_fa_spectrum(obj, p2_plus=1)
+    if fn == 'fns.get_sig_freq_range':
+        return eqsig.get_sig_freq_range(obj)
+    if fn == 'fns.fas2values(own spectrum)':
+        return eqsig.fas2values(obj.fa_spectrum, obj.dt)
+    if fn == 'fns.fas2signal(own spectrum)':
+        return eqsig.fas2signal(obj.fa_spectrum, obj.dt)
+    if fn == 'fns.get_section_average':
+        return eqsig.get_section_average(obj, start=0, end=obj.dt * (obj.npts // 2))
+    if fn == 'method.get_section_average':
+        return obj.get_section_average(start=0, end=obj.dt * (obj.npts // 3))
+    if fn == 'fns.calc_smooth_fa_spectrum_w_custom_matrix':
+        m = eqsig.calc_smoothing_matrix_konno_1998(obj.fa_freqs, np.array([1.0, 2.0, 5.0]))
+        return eqsig.calc_smooth_fa_spectrum_w_custom_matrix(obj, m)
+    if fn == 'fns.interp_to_approx_dt':
+        return eqsig.interp_to_approx_dt(obj, obj.dt / 3.0)
+    if fn == 'fns.resample_to_approx_dt':
+        return eqsig.resample_to_approx_dt(obj, obj.dt / 2.0)
+    if fn == 'multiple.combine_at_angle':
+        return eqsig.combine_at_angle(obj, obj, 30.0)
+    if fn == 'multiple.compute_rotated':
+        return eqsig.compute_rotated(obj, obj, parameter='pga', points=3)
+    if fn == 'method.generate_cumulative_stats':
+        return obj.generate_cumulative_stats()
+    raise ValueError(fn)
 
 
 def apply_op(eqsig, obj, op):
@@ -199,6 +263,23 @@ def apply_op(eqsig, obj, op):
             return
         if name == 'set:response_times':
             obj.response_times = kw['rt']
+            return
+        if name.startswith('call:'):
+            return call_analysis(eqsig, obj, name[5:])
+        if name == 'set:response_times(same object, edited, re-assigned)':
+            rt = obj.response_times
+            if isinstance(rt, np.ndarray) and rt.dtype.kind == 'f':
+                rt *= kw['factor']                    # the user edits the array it got from / gave to the object ...
+            else:
+                rt = np.array(rt, dtype=float) * kw['factor']
+            obj.response_times = rt                   # ... and assigns it again: a settings change through the public API
+            return
+        if name == 'set:response_times(own array assigned, edited, re-assigned)':
+            rt = np.array(kw['rt'], dtype=float)
+            obj.response_times = rt
+            obj.s_a
+            rt[...] = rt * 1.5 + 0.01
+            obj.response_times = rt
             return
         if name == 'set_zero_residual_velocity' or name == 'set_zero_residual_displacement_and_velocity':
             return getattr(obj, name)(timezone=kw['timezone'])
